@@ -154,17 +154,23 @@ class Sessions:
     """The real interpreters of one history, configured as DESIGN 5.4 says:
     module path and the load log live in the base environment."""
 
-    def __init__(self, interps, moddir):
+    def __init__(self, interps, moddir=None):
         global BUNDLED
         self.it = {}
         for i in interps:
             it = Interpreter(True, False)
             if BUNDLED is None:
                 BUNDLED = set(it.base_environment.modules.keys())
+            self.it[i] = it
+        if moddir is not None:
+            self.configure(moddir)
+
+    def configure(self, moddir):
+        """Point the (so far unused) interpreters at a module directory."""
+        for it in self.it.values():
             it.base_environment.put("checkerlang_module_path",
                                     V.ValueList().addItem(V.ValueString(moddir)))
             it.base_environment.put("loadlog", V.ValueList())
-            self.it[i] = it
         any_it = next(iter(self.it.values()))
         self.base_names = set(any_it.base_environment.getSymbols())
         for it in self.it.values():
@@ -246,6 +252,11 @@ def render_value(sess, i, expr, v, want_kind):
     return (type(v).__name__, 0)
 
 
+def value_cat(name):
+    """probe = what module code saw of the importer (C11's concern only)."""
+    return "probe" if name.endswith(("_sees", "_top")) else "value"
+
+
 def observe(sess, i, want):
     """Compare the scope of interpreter i with the predicted observation
     `want` (STATE.obs[i]).  -> list of (category, detail)."""
@@ -272,7 +283,7 @@ def observe(sess, i, want):
         v = it.environment.map[n]
         got = render_value(sess, i, n, v, w["v"]["k"])
         if got[:2] != (w["v"]["k"], w["v"]["r"]):
-            diffs.append(("value", f"{i}: {n} is {got} but should be {(w['v']['k'], w['v']['r'])}"))
+            diffs.append((value_cat(n), f"{i}: {n} is {got} but should be {(w['v']['k'], w['v']['r'])}"))
             continue
         if w["v"]["k"] == "mod":
             mem = w["mem"] if w["mem"] != [] else {}
@@ -284,7 +295,7 @@ def observe(sess, i, want):
             for k in sorted(set(mem) & have):
                 g = render_value(sess, i, f"{n}->{k}", v.value[k], mem[k]["k"])
                 if g[:2] != (mem[k]["k"], mem[k]["r"]):
-                    diffs.append(("value", f"{i}: {n}->{k} is {g} but should be {(mem[k]['k'], mem[k]['r'])}"))
+                    diffs.append((value_cat(k), f"{i}: {n}->{k} is {g} but should be {(mem[k]['k'], mem[k]['r'])}"))
     return diffs
 
 
@@ -407,6 +418,7 @@ class Walker:
         plan below every root; returns when every process has ended."""
         self.fd = os.open(self.outpath, os.O_WRONLY | os.O_APPEND | os.O_CREAT)
         gc.disable()
+        warm = Sessions(self.interps)        # constructed once; every root forks a pristine copy
         pids = []
         for k, (root_sid, moddir, tag) in enumerate(roots):
             self.sem.acquire()
@@ -415,7 +427,8 @@ class Walker:
                 code = 0
                 try:
                     self.root = k
-                    sess = Sessions(self.interps, moddir)
+                    sess = warm
+                    sess.configure(moddir)
                     n = self.check_state(sess, root_sid, [], None)
                     self.emit({"t": "n", "edges": 0, "evals": n})
                     self.children(sess, root_sid, 0, [], None, tag)
@@ -740,26 +753,59 @@ def tlc_graph(run, cfg, label, c11=False, **kw):
     return g, res
 
 
+def subgraph(g, sids):
+    """The part of g reachable from sids, renumbered (edge order kept)."""
+    remap = {}
+    order = []
+    stack = list(sids)
+    while stack:
+        s = stack.pop()
+        if s in remap:
+            continue
+        remap[s] = len(order)
+        order.append(s)
+        for (_, _, q) in g.out[s]:
+            if q not in remap:
+                stack.append(q)
+    h = Graph()
+    h.key = [g.key[s] for s in order]
+    h.obs = {remap[s]: g.obs[s] for s in order if s in g.obs}
+    h.out = {remap[s]: [(c, o, remap[q]) for (c, o, q) in g.out[s]] for s in order}
+    return h, remap
+
+
+ROOTS_PER_BATCH = 400
+
+
 def walk(run, g, interps, roots, fsdefs, mode, verdict, prefix, loadcap=1, maxlen=None):
-    """roots: list of (root sid, index into fsdefs, initial tag)."""
-    d = tempfile.mkdtemp(prefix="c10-")
-    try:
-        dirs = {}
-        jroots = []
-        for (sid, fi, tag) in roots:
-            if fi not in dirs:
-                dirs[fi] = os.path.join(d, "fs%d" % fi)
-                os.mkdir(dirs[fi])
-                materialise(fsdefs[fi], dirs[fi])
-            jroots.append([sid, dirs[fi], tag])
-        job = {"graph": os.path.join(d, "graph.json"), "interps": interps, "roots": jroots,
-               "mode": mode, "maxlen": maxlen, "loadcap": loadcap,
-               "out": os.path.join(d, "findings.ndjson")}
-        g.dump(job["graph"])
-        run_walk_job(job, d)
-        recs = collect(job["out"])
-    finally:
-        shutil.rmtree(d, ignore_errors=True)
+    """roots: list of (root sid, index into fsdefs, initial tag).  Many roots
+    are walked in batches, each by a fresh process that holds only its part of
+    the graph (forking a small process is cheap)."""
+    recs = []
+    for b0 in range(0, len(roots), ROOTS_PER_BATCH):
+        batch = roots[b0:b0 + ROOTS_PER_BATCH]
+        h, remap = (g, None) if len(roots) <= ROOTS_PER_BATCH else subgraph(g, [r[0] for r in batch])
+        d = tempfile.mkdtemp(prefix="c10-")
+        try:
+            dirs = {}
+            jroots = []
+            for (sid, fi, tag) in batch:
+                if fi not in dirs:
+                    dirs[fi] = os.path.join(d, "fs%d" % fi)
+                    os.mkdir(dirs[fi])
+                    materialise(fsdefs[fi], dirs[fi])
+                jroots.append([sid if remap is None else remap[sid], dirs[fi], tag])
+            job = {"graph": os.path.join(d, "graph.json"), "interps": interps, "roots": jroots,
+                   "mode": mode, "maxlen": maxlen, "loadcap": loadcap,
+                   "out": os.path.join(d, "findings.ndjson")}
+            h.dump(job["graph"])
+            run_walk_job(job, d)
+            for r in collect(job["out"]):
+                if r.get("root") is not None:
+                    r["root"] += b0
+                recs.append(r)
+        finally:
+            shutil.rmtree(d, ignore_errors=True)
     return report(run, recs, verdict, prefix, [fsdefs[fi] for (_, fi, _) in roots], interps)
 
 
@@ -785,11 +831,12 @@ def run(run):
 
     def go(cfg, interps, label, mode, name, **params):
         nonlocal total_edges, total_evals
+        t0 = time.time()
         g, e, v = run_graph(run, cfg, interps, label, mode, rng, params)
         total_edges += e
         total_evals += v
         info[name] = {"states": len(g.key), "graph_edges": sum(len(x) for x in g.out.values()),
-                      "commands_executed": e}
+                      "commands_executed": e, "tlc_and_replay_wall_s": round(time.time() - t0, 1)}
         return g
 
     g1 = go("Session_one", ["i1"], "Session, one interpreter, core alphabet (repaired behaviour)",
